@@ -177,4 +177,10 @@ theorem reach_queue_le (p : Params) (s0 s : Sys) (h0 : s0.queue.length ≤ p.qca
   | init => exact h0
   | step l _ hn ih => exact next_queue_le p _ _ l hn ih
 
+/-- A goroutine step (a post, a hand-off) leaves `handleSequence`'s own state alone. -/
+theorem stepEffect_vs (p : Params) (s s' : Sys) (e : Effect) (rest : List Effect)
+    (h : stepEffect p s e rest = some s') : s'.vs = s.vs := by
+  unfold stepEffect at h
+  cases e <;> simp only at h <;> (repeat' split at h) <;> simp at h <;> (try subst h) <;> (try rfl)
+
 end VaxisModel.Lemmas.InputLoop
